@@ -18,6 +18,8 @@ fn main() {
     let code = match (args.cmd.as_str(), args.sub.as_str()) {
         ("replay", "range") => props::range::replay(&args),
         ("drive", "range") => props::range::drive(&args),
+        ("replay", "xlsx_sheet") => props::xlsx_sheet::replay(&args),
+        ("drive", "xlsx_sheet") => props::xlsx_sheet::drive(&args),
         ("replay", "de") => props::de::replay(&args),
         ("drive", "de") => props::de::drive(&args),
         _ => {
